@@ -19,6 +19,8 @@ def run(ctx):
     _derived(ctx, 'C15.R4', ('Recipe', 'RecipeStep', 'Plate', 'Container', 'Slicer', 'PlateSlicer'))
     from .configtime import decisions_not_taken_on_display_values as _coarse
     _coarse(ctx, 'C15.R4', ('Container', 'Plate', 'PlateSlicer', 'Recipe', 'RecipeStep'))
+    from .c08 import steps_only_appended as _append_only
+    _append_only(ctx, 'C15.R4')
     from .configtime import no_identity_test_against_literals as _no_is_literal
     _no_is_literal(ctx, 'C15.R1', classes=('Recipe', 'RecipeStep'))
     from .configtime import no_shared_mutable_defaults as _mutdef
